@@ -215,6 +215,16 @@ static void h_op(void)
     if      (esl_opt_GetBoolean(go, "-m"))   esl_gencode_SetInitiatorOnlyAUG(g);
     else if (! esl_opt_GetBoolean(go, "-M")) esl_gencode_SetInitiatorAny(g);
     wrk = esl_gencode_WorkstateCreate(go, g);
+    if (h_argi("out", 0)) {
+      /* no ORF block: ProcessOrf prints each record with esl_sqio_Write(wrk->outfp, psq, wrk->outformat), as esl-translate does */
+      char *mem = NULL; size_t msz = 0; int fasta = (wrk->outformat == eslSQFILE_FASTA && wrk->outfp == stdout);
+      wrk->outfp = open_memstream(&mem, &msz);
+      if (esl_opt_GetBoolean(go, "-W")) do_by_windows(g, wrk, sqfp); else do_by_sequences(g, wrk, sqfp);
+      fclose(wrk->outfp);
+      h_out("ok w=%d c=%d u=%d l=%d f=%d text=%s", wrk->do_watson, wrk->do_crick, wrk->using_initiators, wrk->minlen, fasta, h_hex(mem, (int64_t) msz));
+      free(mem); esl_gencode_WorkstateDestroy(wrk); esl_sqfile_Close(sqfp); esl_gencode_Destroy(g); esl_getopts_Destroy(go); unlink(path);
+      return;
+    }
     wrk->orf_block = esl_sq_CreateDigitalBlock(4, AA);
     if (esl_opt_GetBoolean(go, "-W")) do_by_windows(g, wrk, sqfp); else do_by_sequences(g, wrk, sqfp);
     sprintf(tmp, "ok w=%d c=%d u=%d l=%d f=%d n=%d", wrk->do_watson, wrk->do_crick, wrk->using_initiators, wrk->minlen, wrk->outformat == eslSQFILE_FASTA, wrk->orf_block->count);
